@@ -214,6 +214,27 @@ func init() {
 		"[(*py.Slice).GetIndices#4 == nil && p1.(*Slice) && ret#2:slice.GetIndices(len(recv.Items)) != 1 && ret#2:slice.GetIndices(len(recv.Items)) <= -1] p1.GetIndices(len(recv.Items)); LOOP(for k1 = 0; k1 < slicelength; k1++){[] recv.DelItem(start + k1 * step - k1) } -> None, nil",
 		"[(*py.Slice).GetIndices#4 == nil && p1.(*Slice) && ret#2:slice.GetIndices(len(recv.Items)) != 1 && ret#2:slice.GetIndices(len(recv.Items)) >= 0] p1.GetIndices(len(recv.Items)); LOOP(for k1 = 0; k1 < slicelength; k1++){[] recv.DelItem(start + k1 * step - k1) } -> None, nil",
 	}
+	// list slice assignment under the sequence model (the same table as C17.R5): the operand is read first, the tail is copied unconditionally before the splice — a conditional copy overwrites the tail when the list has spare capacity [listobject.c list_ass_slice]  []
+	pathSpec["py|List.M__setitem__"] = []string{
+		"[!(p1.(*Slice)) && py.IndexIntCheck#1 != nil] IndexIntCheck(p1, len(recv.Items)) -> nil, err!",
+		"[!(p1.(*Slice)) && py.IndexIntCheck#1 == nil] IndexIntCheck(p1, len(recv.Items)); recv.Items[i] = p2 -> None, nil",
+		"[(*py.Slice).GetIndices#4 != nil && p1.(*Slice)] p1.GetIndices(len(recv.Items)) -> nil, err!",
+		"[(*py.Slice).GetIndices#4 == nil && len(py.SequenceTuple#0) - ret#3:slice.GetIndices(len(recv.Items)) != 0 && p1.(*Slice) && py.SequenceTuple#1 == nil && ret#2:slice.GetIndices(len(recv.Items)) != 1] p1.GetIndices(len(recv.Items)); SequenceTuple(p2); ExceptionNewf(ValueError, \"attempt to assign sequence of s…#fbdadfd3\", len(py.SequenceTuple#0), ret#3:slice.GetIndices(len(recv.Items))) -> nil, err!",
+		"[(*py.Slice).GetIndices#4 == nil && len(py.SequenceTuple#0) - ret#3:slice.GetIndices(len(recv.Items)) == 0 && p1.(*Slice) && py.SequenceTuple#1 == nil && ret#2:slice.GetIndices(len(recv.Items)) != 1] p1.GetIndices(len(recv.Items)); SequenceTuple(p2); LOOP(for i, j := start, 0; j < slicelength; i, j = i+step, j+1){[] recv.Items[i] = py.SequenceTuple#0[*] } -> None, nil",
+		"[(*py.Slice).GetIndices#4 == nil && p1.(*Slice) && py.SequenceTuple#1 != nil] p1.GetIndices(len(recv.Items)); SequenceTuple(p2) -> nil, err!",
+		"[(*py.Slice).GetIndices#4 == nil && p1.(*Slice) && py.SequenceTuple#1 == nil && ret#0:slice.GetIndices(len(recv.Items)) - ret#1:slice.GetIndices(len(recv.Items)) <= 0 && ret#2:slice.GetIndices(len(recv.Items)) == 1] p1.GetIndices(len(recv.Items)); SequenceTuple(p2); recv.Items = append(recv.Items[:start], py.SequenceTuple#0); recv.Items = append(recv.Items, copy-of[recv.Items[stop:]]) -> None, nil",
+		"[(*py.Slice).GetIndices#4 == nil && p1.(*Slice) && py.SequenceTuple#1 == nil && ret#0:slice.GetIndices(len(recv.Items)) - ret#1:slice.GetIndices(len(recv.Items)) >= 1 && ret#2:slice.GetIndices(len(recv.Items)) == 1] p1.GetIndices(len(recv.Items)); SequenceTuple(p2); recv.Items = append(recv.Items[:start], py.SequenceTuple#0); recv.Items = append(recv.Items, copy-of[recv.Items[stop:]]) -> None, nil",
+	}
+	// list slice deletion under the sequence model (the same table as C17.R5)  []
+	pathSpec["py|List.M__delitem__"] = []string{
+		"[!(p1.(*Slice)) && py.IndexIntCheck#1 != nil] IndexIntCheck(p1, len(recv.Items)) -> nil, err!",
+		"[!(p1.(*Slice)) && py.IndexIntCheck#1 == nil] IndexIntCheck(p1, len(recv.Items)); recv.DelItem(ret#0:IndexIntCheck(p1, len(recv.Items))) -> None, nil",
+		"[(*py.Slice).GetIndices#4 != nil && p1.(*Slice)] p1.GetIndices(len(recv.Items)) -> nil, err!",
+		"[(*py.Slice).GetIndices#4 == nil && p1.(*Slice) && ret#0:slice.GetIndices(len(recv.Items)) - ret#1:slice.GetIndices(len(recv.Items)) <= 0 && ret#2:slice.GetIndices(len(recv.Items)) == 1] p1.GetIndices(len(recv.Items)); recv.Items = append(recv.Items[:start], recv.Items[stop:]) -> None, nil",
+		"[(*py.Slice).GetIndices#4 == nil && p1.(*Slice) && ret#0:slice.GetIndices(len(recv.Items)) - ret#1:slice.GetIndices(len(recv.Items)) >= 1 && ret#2:slice.GetIndices(len(recv.Items)) == 1] p1.GetIndices(len(recv.Items)); recv.Items = append(recv.Items[:start], recv.Items[stop:]) -> None, nil",
+		"[(*py.Slice).GetIndices#4 == nil && p1.(*Slice) && ret#2:slice.GetIndices(len(recv.Items)) != 1 && ret#2:slice.GetIndices(len(recv.Items)) <= -1] p1.GetIndices(len(recv.Items)); LOOP(for k1 = 0; k1 < slicelength; k1++){[] recv.DelItem(start + k1 * step - k1) } -> None, nil",
+		"[(*py.Slice).GetIndices#4 == nil && p1.(*Slice) && ret#2:slice.GetIndices(len(recv.Items)) != 1 && ret#2:slice.GetIndices(len(recv.Items)) >= 0] p1.GetIndices(len(recv.Items)); LOOP(for k1 = 0; k1 < slicelength; k1++){[] recv.DelItem(start + k1 * step - k1) } -> None, nil",
+	}
 	// in-place set operators adopt the result of the binary operator unconditionally and evaluate to the receiver  []
 	pathSpec["py|Set.inPlace"] = []string{
 		"[!(p1.(*Set)) && p2 == nil]  -> p1, nil",
